@@ -59,7 +59,12 @@ func (f *Frame) call(ins ssa.Instruction, c *ssa.CallCommon, st *State, reach Te
 	}
 	if callee == nil {
 		fv := f.term(c.Value, st)
-		f.safety("nil", "callfn:"+shortVal(c.Value), reach, f.notNil(fv), ins.Pos())
+		switch c.Value.(type) {
+		case *ssa.Parameter, *ssa.FreeVar:
+			// function-typed arguments are assumed non-nil (nil arguments are outside the properties)
+		default:
+			f.safety("nil", "callfn:"+shortVal(c.Value), reach, f.notNil(fv), ins.Pos())
+		}
 		// parameter contract?
 		if r, ok := f.callParamContract(c, args, resT, st, reach, ins.Pos()); ok {
 			return r
@@ -289,7 +294,7 @@ func (f *Frame) callByContract(con *Contract, callee *ssa.Function, sig *types.S
 		}
 	}
 	// effects
-	post := f.applyModifies(con, env, st)
+	post := f.applyModifies(con, env, st, reach, pos)
 	env.st = post
 	// results
 	var results Tuple
@@ -396,7 +401,7 @@ func (f *Frame) typeFactsOnce(c Term, t types.Type) {
 }
 
 // applyModifies builds the post-call state from the callee's modifies clause.
-func (f *Frame) applyModifies(con *Contract, env *Env, st *State) *State {
+func (f *Frame) applyModifies(con *Contract, env *Env, st *State, reach Term, pos token.Pos) *State {
 	pre := new(State)
 	*pre = *st
 	if !con.ModSet {
@@ -406,18 +411,40 @@ func (f *Frame) applyModifies(con *Contract, env *Env, st *State) *State {
 		}
 		return pre.havocAll("call without modifies clause")
 	}
-	n := pre.derive()
-	n.now = f.vc.freshConst("now", sInt)
-	f.vc.assume(T(sBool, "(>= %s %s)", n.now.S, pre.now.S))
+	var targets []modTarget
 	for _, m := range con.Modifies {
-		tg, err := env.modTarget(m)
+		tgs, err := env.modTargets(m)
 		if err != nil {
 			f.vc.note("%s: modifies target %q not translatable (%v); heap havocked", funcKey(f.fn), m, err)
+			f.calleeFrame(modTarget{all: true}, pre, reach, pos, con)
 			return pre.havocAll("untranslatable modifies")
 		}
-		switch {
-		case tg.all:
+		targets = append(targets, tgs...)
+	}
+	// the callee's footprint must lie inside the caller's own frame
+	for _, tg := range targets {
+		f.calleeFrame(tg, pre, reach, pos, con)
+	}
+	n := pre
+	// allocation-time frames first, then the explicit targets
+	for _, tg := range targets {
+		if tg.all {
 			return pre.havocAll("modifies *")
+		}
+		if tg.since != nil {
+			n = n.havocSince(*tg.since)
+		}
+	}
+	if n == pre {
+		n = pre.derive()
+		n.now = f.vc.freshConst("now", sInt)
+		f.vc.assume(T(sBool, "(>= %s %s)", n.now.S, pre.now.S))
+	} else {
+		n = n.derive()
+	}
+	for _, tg := range targets {
+		switch {
+		case tg.since != nil:
 		case tg.whole:
 			n.set(tg.key, f.vc.freshConst(tg.key, f.vc.compSort(tg.key)))
 		default:
@@ -429,6 +456,42 @@ func (f *Frame) applyModifies(con *Contract, env *Env, st *State) *State {
 		}
 	}
 	return n
+}
+
+// calleeFrame emits the obligation that one frame target of a callee lies
+// within the frame of the function under verification.
+func (f *Frame) calleeFrame(tg modTarget, st *State, reach Term, pos token.Pos, con *Contract) {
+	top := f.vc
+	if top.con == nil || !top.con.ModSet {
+		return
+	}
+	for _, m := range top.frameTargets {
+		if m.all {
+			return
+		}
+	}
+	name := "frame@" + f.prefix + top.site("call:"+con.Func)
+	switch {
+	case tg.all:
+		top.oblige("frame", name, top.frameTags, reach, tFalse(), f.pos(pos)).Desc = "callee may write anything"
+	case tg.since != nil:
+		allowed := []Term{T(sBool, "(>= %s now!0)", tg.since.S)}
+		for _, m := range top.frameTargets {
+			if m.since != nil {
+				allowed = append(allowed, T(sBool, "(>= %s %s)", tg.since.S, m.since.S))
+			}
+		}
+		top.oblige("frame", name, top.frameTags, reach, tOr(allowed...), f.pos(pos)).Desc = "callee frame since(...) within the caller's frame"
+	case tg.whole:
+		for _, m := range top.frameTargets {
+			if m.whole && m.key == tg.key {
+				return
+			}
+		}
+		top.oblige("frame", name, top.frameTags, reach, tFalse(), f.pos(pos)).Desc = "callee writes the whole component " + tg.key
+	default:
+		f.frameCheckNamed(name, tg.key, tg.ref, st, reach, pos)
+	}
 }
 
 // ---------------------------------------------------------------------------
